@@ -148,7 +148,7 @@ theorem evalTargets_star (row : Row) (l : List ((String × Ty) × Nat)) :
     simp only [starTargets, List.map_cons, evalTargets, eval] at ih ⊢
     rw [ih]
 
-theorem foldlE_nonAgg (ts : List CExpr) (f : Row → Row) (hf : ∀ r, evalTargets [] r ts = .ok (f r)) (rows acc : List Row) :
+theorem foldlE_nonAgg_map (ts : List CExpr) (f : Row → Row) (hf : ∀ r, evalTargets [] r ts = .ok (f r)) (rows acc : List Row) :
     foldlE (nonAggStep none ts) acc rows = .ok (acc ++ rows.map f) := by
   induction rows generalizing acc with
   | nil => simp [foldlE]
@@ -178,7 +178,7 @@ theorem exec_starQuery (desc : List (String × Ty)) (rows : List Row)
     simpa using this
   have hsel : selectNonAgg (starQuery desc rows) = .ok rows := by
     unfold selectNonAgg
-    have := foldlE_nonAgg ((starTargets desc.zipIdx).map (·.expr)) _ (fun r => evalTargets_star r desc.zipIdx) rows []
+    have := foldlE_nonAgg_map ((starTargets desc.zipIdx).map (·.expr)) _ (fun r => evalTargets_star r desc.zipIdx) rows []
     simp only [starQuery, this, List.nil_append]
     congr 1
     conv => rhs; rw [← List.map_id rows]
